@@ -381,13 +381,14 @@ type sim struct {
 	comRem   map[int]bool // committed with code OK and still remembered by the reference LRU
 	nUpdates int
 	commitErr error
-	dupSuspect map[int]bool // accepted a second time while in the pool
+	tainted   bool // a known duplicate-class finding was hit: C12 oracles are off for the rest of the run
+	dupSuspect map[int]int // how often it was accepted again while in the pool
 }
 
 func newSim(env *simcore.Env, cfg simcore.Op) simcore.Sim {
 	s := &sim{env: env, cfg: cfg, ver: cfg.Int("ver"), index: map[string]int{}, committedOK: map[int]bool{},
 		tracked: map[int]*track{}, admitV: map[int]verdict{}, admitCom: map[int]bool{}, delivNew: map[int]bool{},
-		comRem: map[int]bool{}, dupSuspect: map[int]bool{}, opsLeft: cfg.Int("nops"), commitGate: make(chan struct{})}
+		comRem: map[int]bool{}, dupSuspect: map[int]int{}, opsLeft: cfg.Int("nops"), commitGate: make(chan struct{})}
 	s.vn = fmt.Sprintf("v%d", s.ver)
 	for i, n := range cfg.Ints("lens") {
 		if n < 1 {
@@ -715,7 +716,7 @@ func (s *sim) idle() bool {
 // ---------------------------------------------------------------- op generation
 
 func (s *sim) Next(rng *simcore.RNG) simcore.Op {
-	if s.opsLeft <= 0 {
+	if s.opsLeft <= 0 || s.tainted && !s.env.Checking("C05") {
 		return nil
 	}
 	s.opsLeft--
@@ -862,6 +863,7 @@ func (s *sim) Apply(op simcore.Op) bool {
 			}
 			s.deliverHead()
 			did++
+			s.after(op)
 			if e.Failed() {
 				break
 			}
@@ -870,7 +872,7 @@ func (s *sim) Apply(op simcore.Op) bool {
 			return false
 		}
 		e.Count("op.del")
-		return s.after(op)
+		return true
 	case "commit":
 		if s.commit != nil || s.mutexW > 0 {
 			return false
@@ -896,13 +898,13 @@ func (s *sim) Apply(op simcore.Op) bool {
 		s.settle()
 		e.Count("op.rel")
 	case "reap":
-		if s.lockHeld() || s.mutexW > 0 {
+		if s.lockHeld() || s.mutexW > 0 || s.tainted {
 			return false
 		}
 		s.checkReapMaxTxs(op.Int("n"))
 		e.Count("op.reap")
 	case "reapbg":
-		if s.lockHeld() || s.mutexW > 0 {
+		if s.lockHeld() || s.mutexW > 0 || s.tainted {
 			return false
 		}
 		s.checkReapBytesGas(op.Int64("bytes"), op.Int64("gas"))
@@ -1011,7 +1013,7 @@ func (s *sim) deliverHead() {
 			}
 			if s.tracked[r.txi] != nil || pending {
 				// accepted although (as far as the last observation goes) it is in the pool already
-				s.dupSuspect[r.txi] = true
+				s.dupSuspect[r.txi]++
 				e.Count("probe.accept_while_in_pool")
 			}
 			s.admit = append(s.admit, r.txi)
@@ -1229,6 +1231,9 @@ func (s *sim) reapAll() ([]int, types.Txs) {
 // observe evaluates the C12 invariants on the pool as ReapMaxTxs(-1) shows it.
 func (s *sim) observe() {
 	e := s.env
+	if s.tainted {
+		return
+	}
 	idx, all := s.reapAll()
 	// uniqueness
 	seen := map[int]bool{}
@@ -1236,8 +1241,10 @@ func (s *sim) observe() {
 	for _, i := range idx {
 		if seen[i] {
 			dup = true
-			e.Count("probe.dup_seen")
-			e.Fail("C12", s.dupSig(), "%s: the pool holds tx%d twice: %v (cache=%d size=%d)", s.vn, i, idx, s.mcfg.CacheSize, s.mcfg.Size)
+			s.dupFail("%s: the pool holds tx%d twice: %v (cache=%d size=%d)", s.vn, i, idx, s.mcfg.CacheSize, s.mcfg.Size)
+			if s.tainted {
+				return
+			}
 		}
 		seen[i] = true
 	}
@@ -1253,16 +1260,18 @@ func (s *sim) observe() {
 		var extraN int
 		var extraB int64
 		var twice []int
-		for _, i := range idx {
-			if s.dupSuspect[i] {
-				extraN++
-				extraB += int64(len(s.univ[i]))
+		for i := range s.univ {
+			if k := s.dupSuspect[i]; k > 0 {
+				extraN += k
+				extraB += int64(k * len(s.univ[i]))
 				twice = append(twice, i)
 			}
 		}
 		if !dup && extraN > 0 && n-len(all) <= extraN && n > len(all) && b-bytesSum <= extraB && b > bytesSum {
-			e.Count("probe.dup_seen")
-			e.Fail("C12", s.dupSig(), "%s: Size()=%d SizeBytes()=%d but ReapMaxTxs(-1) returns %d txs %v with %d bytes: txs %v were accepted a second time while in the pool and are held twice (cache=%d size=%d)", s.vn, n, b, len(all), idx, bytesSum, twice, s.mcfg.CacheSize, s.mcfg.Size)
+			s.dupFail("%s: Size()=%d SizeBytes()=%d but ReapMaxTxs(-1) returns %d txs %v with %d bytes: txs %v were accepted a second time while in the pool and are held twice (cache=%d size=%d)", s.vn, n, b, len(all), idx, bytesSum, twice, s.mcfg.CacheSize, s.mcfg.Size)
+			if s.tainted {
+				return
+			}
 		} else {
 			e.Fail("C12", s.vn+"-size-mismatch", "%s: Size()=%d SizeBytes()=%d but ReapMaxTxs(-1) returns %d txs %v with %d bytes", s.vn, n, b, len(all), idx, bytesSum)
 		}
@@ -1270,8 +1279,11 @@ func (s *sim) observe() {
 	// a committed tx is gone
 	for _, i := range s.justCom {
 		if seen[i] {
-			if s.dupSuspect[i] {
-				e.Fail("C12", s.dupSig(), "%s: tx%d was in the pool twice (accepted a second time while in the pool, cache=%d size=%d); the update for height %d, which committed it, removed one copy only", s.vn, i, s.mcfg.CacheSize, s.mcfg.Size, s.height)
+			if s.dupSuspect[i] > 0 {
+				s.dupFail("%s: tx%d was in the pool twice (accepted a second time while in the pool, cache=%d size=%d); the update for height %d, which committed it, removed one copy only", s.vn, i, s.mcfg.CacheSize, s.mcfg.Size, s.height)
+				if s.tainted {
+					return
+				}
 			} else if s.admitCom[i] {
 				e.Fail("C12", s.vn+"-committed-tx-readmitted", "%s: tx%d was committed at height %d and is in the pool afterwards (its CheckTx was in flight across the commit)", s.vn, i, s.height)
 			} else {
@@ -1351,6 +1363,17 @@ func (s *sim) observe() {
 	}
 	if len(idx) > s.mcfg.CacheSize && s.mcfg.CacheSize > 0 {
 		e.Count("probe.pool_larger_than_cache")
+	}
+}
+
+// dupFail reports the duplicate class. If it is a listed known finding the run goes on for
+// C05 only: the pool is corrupt from here on (one copy is invisible to the key index and
+// survives removal), so further C12 verdicts on this run would be consequences, not findings.
+func (s *sim) dupFail(format string, a ...any) {
+	s.env.Count("probe.dup_seen")
+	s.env.Fail("C12", s.dupSig(), format, a...)
+	if s.env.Checking("C12") {
+		s.tainted = true
 	}
 }
 
@@ -1483,7 +1506,7 @@ func (s *sim) Finish() {
 	if s.env.Failed() {
 		return
 	}
-	if !s.lockHeld() && s.mutexW == 0 {
+	if !s.lockHeld() && s.mutexW == 0 && !s.tainted {
 		s.checkReapMaxTxs(-1)
 		s.checkReapBytesGas(-1, -1)
 		for _, a := range s.subs {
